@@ -101,7 +101,6 @@ Proof.
 Qed.
 
 (* ---- the bound ------------------------------------------------------------ *)
-Definition node_na (n : node) : Z := match n with Leaf _ na => na | Sub na _ _ _ _ _ => na end.
 
 (* what one publication point's loop guarantees, given the guarantee for its children *)
 Definition node_ok (c : cfg) (n : node) : Prop :=
